@@ -28,6 +28,15 @@ pub fn families() -> Vec<Family> {
         .runs(1_500, 60_000)
         .steps(2_000_000)
         .tokio(),
+        Family::new(
+            "c03_ws_backpressure",
+            "C03",
+            "WebSocketServer off-reader responses under back-pressure: gated _blocking handlers are released while the bounded outbound queue is full behind a client that is not reading; once the client reads, every request must have exactly one response",
+            c03_ws_backpressure,
+        )
+        .runs(1_500, 60_000)
+        .steps(2_000_000)
+        .tokio(),
     ]
 }
 
@@ -352,6 +361,87 @@ fn c16_ws_offreader(case: &Case) {
         case.progress(admitted.len() as u64, admitted.len() as u64);
         gate.open_all();
         let _ = futures_util::SinkExt::close(&mut sink).await;
+        let _ = tokio::time::timeout(std::time::Duration::from_secs(2), collector).await;
+        srv.abort();
+        let _ = srv.await;
+    });
+}
+
+
+/// The parked `blocking_send` path: handlers finish while the outbound queue has no free slot.
+fn c03_ws_backpressure(case: &Case) {
+    use simkernel::net::Side;
+    net::reset(simkernel::net::NetConfig { capacity: pick(&[256usize, 1024]), lat_min: 0, lat_max: pick(&[0u64, 100_000]), max_segment: 0 });
+    let out_cap = pick(&[1usize, 1, 2, 4]);
+    let n_gated = range(1, 6) as u64;
+    let n_inline = range(out_cap as u32 + 2, out_cap as u32 + 12) as u64;
+    let pad = pick(&[200usize, 1500, 6000]);
+    let stall_ms = pick(&[5u64, 50, 400]);
+    case.sample(json!({"outbound_capacity": out_cap, "gated_requests": n_gated, "inline_requests": n_inline, "inline_response_pad": pad, "client_reads_after_ms": stall_ms}));
+    let case = case.clone();
+    aio::run(&case.clone(), 3_600, async move {
+        let gate = Gate::new();
+        let router = gated_router(gate.clone(), false, Arc::new(AtomicU64::new(0))).with_json("/pad", move |v: Value| Ok(json!({"t": v["t"], "pad": "p".repeat(pad)})));
+        let listener = WebSocketServer::listen("127.0.0.1:0").await.unwrap();
+        let addr = listener.local_addr().unwrap();
+        let server = WebSocketServer::new(router).with_offreader_limit(0).with_outbound_capacity(out_cap);
+        let srv = tokio::spawn(async move {
+            let _ = server.serve_listener(listener, "/repe").await;
+        });
+        let Ok(ws) = raw_connect(addr, "/repe").await else {
+            case.harness_error("handshake failed");
+            return;
+        };
+        net::set_capacity(&ws.get_ref().conn(), Side::B, 256);
+        let (mut sink, stream) = ws.split();
+        let inbox = Arc::new(Inbox::default());
+        // gated requests first (their handlers park), then inline traffic that fills the
+        // socket and the outbound queue because nobody reads on this side
+        let total = n_gated + n_inline;
+        let sender = tokio::spawn(async move {
+            for t in 1..=n_gated {
+                let _ = send_frame(&mut sink, &gate_frame(t, t, false, if t % 2 == 0 { "/gate2" } else { "/gate" })).await;
+            }
+            for t in n_gated + 1..=n_gated + n_inline {
+                let body = serde_json::to_vec(&json!({"t": t})).unwrap();
+                let _ = send_frame(&mut sink, &Frame::new(t, b"/pad", &body).with_formats(1, 2)).await;
+            }
+            sink
+        });
+        let g = gate.clone();
+        if !wait_until(500, || g.arrived().len() as u64 >= n_gated).await {
+            case.harness_error("gated handlers did not start");
+            gate.open_all();
+            return;
+        }
+        sleep_ms(stall_ms).await;
+        // release every parked handler now: the queue is (very likely) full
+        for t in 1..=n_gated {
+            gate.release(t, Exit::Return);
+        }
+        case.probe("handlers_released_under_backpressure");
+        sleep_ms(stall_ms).await;
+        let collector = spawn_collector(stream, inbox.clone());
+        let ib = inbox.clone();
+        wait_until(20_000, || (1..=total).all(|i| !ib.responses_for(i).is_empty()) || ib.ended()).await;
+        sleep_ms(20).await;
+        for i in 1..=total {
+            let n = inbox.responses_for(i).len();
+            if !case.check(n == 1, "response-count", || format!("request {i} ({}) got {n} responses after the client resumed reading (outbound capacity {out_cap}); connection ended={}", if i <= n_gated { "off-reader" } else { "inline" }, inbox.ended())) {
+                break;
+            }
+        }
+        for t in 1..=n_gated {
+            if let Some(r) = inbox.responses_for(t).first() {
+                case.check(r.ec == 0 && r.body == serde_json::to_vec(&json!({"tag": t})).unwrap(), "wrong-body", || format!("off-reader request {t} answered ec {} body {:?}", r.ec, String::from_utf8_lossy(&r.body)));
+            }
+        }
+        check_inbox_clean(&case, "WebSocketServer", &inbox);
+        case.nontrivial();
+        gate.open_all();
+        if let Ok(Ok(mut sink)) = tokio::time::timeout(std::time::Duration::from_secs(10), sender).await {
+            let _ = tokio::time::timeout(std::time::Duration::from_secs(2), futures_util::SinkExt::close(&mut sink)).await;
+        }
         let _ = tokio::time::timeout(std::time::Duration::from_secs(2), collector).await;
         srv.abort();
         let _ = srv.await;
